@@ -586,6 +586,84 @@ def foreign_traffic(ctx, rng, lengths, dxs=(1.0,), note='foreign.traffic', heavy
     return done
 
 
+# ------------------------------------------------------------------------------------------ hardening pass 3: shared data (classes G / H / I)
+# Nothing below is a reference model either: magnitudes, consistent changes of units, exactly-special argument values computed with
+# the library's own expressions (so that floating-point equality is hit on purpose) and awkward sizes, shared by C01, C02, C03,
+# C05 and the adapter workload of C20.
+
+# class G: magnitudes a linear routine must carry through unchanged (f(s x) = s f(x)); powers of two are exact in floating point
+SCALES = (1e-12, 1e-9, 2.0 ** -40, 1e-6, 1e-3, 1e3, 2.0 ** 30, 1e9, 1e12)
+
+
+def scale_class(s):
+    s = abs(float(s))
+    return 'tiny' if s < 1 else ('huge' if s > 1 else 'unit')
+
+
+# class G: consistent changes of units of a fixed-sampling call.  (alpha, beta, gamma, delta) multiply (input_dx, prop_dist,
+# wavelength, output_dx [and the shift]); Q = lambda z / (n dx_in dx_out) is unchanged when beta * gamma == alpha * delta.
+UNIT_SYSTEMS = (
+    ('metres-everywhere', 1e-3, 1e-3, 1e-6, 1e-6),
+    ('microns-everywhere', 1e3, 1e3, 1.0, 1.0),
+    ('focal-plane-in-nm', 1.0, 1.0, 1e3, 1e3),
+    ('pupil-in-metres', 1e-3, 1.0, 1.0, 1e3),
+    ('pupil-x1024(exact)', 1024.0, 1.0, 1.0, 2.0 ** -10),
+    ('efl-in-metres', 1.0, 1e-3, 1.0, 1e-3),
+    ('pupil-in-nm', 1e6, 1.0, 1.0, 1e-6),
+    ('pupil-in-Gm', 1e-12, 1.0, 1.0, 1e12),
+    ('output-plane-x1e-12', 1e12, 1.0, 1.0, 1e-12),
+    ('wavelength-and-efl', 1.0, 1e-9, 1e9, 1.0),
+)
+# free space: (alpha, gamma, zeta) multiply (dx, wvl, z); the transfer function depends on wvl z / dx^2 only
+FREE_SPACE_UNITS = (
+    ('dx-x1000', 1e3, 1.0, 1e6), ('dx-x2(exact)', 2.0, 1.0, 4.0), ('dx-in-metres', 1e-3, 1.0, 1e-6), ('wavelength-in-nm', 1.0, 1e3, 1e-3),
+    ('wavelength-x2^20(exact)', 1.0, 2.0 ** 20, 2.0 ** -20), ('dx-in-nm', 1e6, 1.0, 1e12), ('dx-in-km', 1e-6, 1.0, 1e-12),
+)
+
+
+def lib_spacing(dx, n, wvl, efl):
+    """The spacing of the other plane for an n-point FFT, with the library's own expression and operation order
+    (prysm.propagation.pupil_sample_to_psf_sample / psf_sample_to_pupil_sample): floating-point equality with what the library
+    computes is the point (class H: 'the requested grid is exactly the FFT grid')."""
+    return (efl * wvl) / (dx * n)
+
+
+def lib_Q(n, input_dx, prop_dist, wavelength, output_dx):
+    """Q_for_sampling(n * input_dx, ...) with the library's operation order."""
+    return ((wavelength * prop_dist) / (n * input_dx)) / output_dx
+
+
+def exact_Q_geometry(rng, n, q, tries=40):
+    """(wvl, efl, dx, odx) such that the library's own arithmetic gives Q == q EXACTLY for an axis of n samples and the output
+    spacing the library reports for a (q n)-point FFT; None when no draw hits equality (q not a power of two: rounding may differ)."""
+    for _ in range(tries):
+        wvl = [0.5, 0.55, 0.6328, 1.0, 1.55, float(rng.uniform(0.3, 12.0))][int(rng.integers(6))]
+        efl = [100.0, 50.0, 250.0, 1234.5, float(rng.uniform(10.0, 5000.0))][int(rng.integers(5))]
+        dx = [0.1, 0.05, 1.0, 0.0123, float(rng.uniform(1e-3, 1.0))][int(rng.integers(5))]
+        odx = lib_spacing(dx, n * q, wvl, efl)
+        if lib_Q(n, dx, efl, wvl, odx) == q:
+            return wvl, efl, dx, odx
+    return None
+
+
+# class H: shift patterns in output samples -- exactly one zero component (int 0 and float 0.0), both, none
+SHIFT_PATTERNS = (
+    ('x-only', (3, 0)), ('x-only', (-2.5, 0.0)), ('y-only', (0, -2)), ('y-only', (0.0, 1.75)), ('both', (1.0, -2.0)), ('both', (0.5, 0.5)),
+    ('both', (-1.25, 2.0)), ('none', (0, 0)), ('none', (0.0, 0.0)),
+)
+
+# class I: band-complete pairs (n, M) on one axis with Q = M / n within 1e-3 of an integer but not an integer (needs n k >= 1000), prime
+# and power-of-two lengths; FFT-unfriendly lengths
+NEAR_INTEGER_PAIRS = ((640, 1281), (1024, 1025), (509, 1019), (521, 1041), (340, 1021), (512, 1025), (1000, 1001), (700, 1399))
+AWKWARD_SIZES = (65, 67, 74, 101, 127, 129, 257)
+LARGE_SIZES = (509, 521, 640, 1021, 1024)
+
+
+def thin(n, k):
+    """A cheap array shape that realises an axis of n samples: 1 x n, n x 1, 2 x n, n x 3 (k picks one)."""
+    return [(1, n), (n, 1), (2, n), (n, 3)][k % 4]
+
+
 # ------------------------------------------------------------------------------------------ probe (python -m vp.propforms)
 def draw_values(routine, rng, kind='complex'):
     """One small in-domain canonical case of `routine` (numbers exactly representable in float32 where a float32 form exists)."""
